@@ -187,6 +187,9 @@ def stepD (cfg : Cfg) (acc : DAcc) (op : DOp) (res : DRes) (rowsAfter : Store) :
         | .alloc c rq pool resp isReq, .reply m =>
           let x := m.yiaddr
           let blob := optsBlob pkt.options
+          -- C02 oracle: the address told to the client lies in the set the configuration assigns to it
+          -- (innermost matching policy's set, else the default pools; `C02_policy_sets_its_addresses`)
+          let acc := if pool.contains x then acc else { acc with spec := acc.spec ++ ["unsat:C02.yiaddr_in_allowed:outside-assigned-set"] }
           -- candidates: allowed outcomes on x; pick the one reproducing the implementation's table
           let cands := (allowed acc.rows acc.now c rq pool).filterMap fun o =>
             match o with
